@@ -87,6 +87,22 @@ def obligations(tier, ctx):
         obs.append(Ob(name=f"seq{i}", params=[("a", "int"), ("b", "int")], pre=["0 <= a <= 3", "0 <= b <= 3"],
                       call=f"H.sequence_sel({sq!r}, a, b)", backend="P", timeout=200,
                       family="(c) sequences through the sender loop; session ids issued by POST 0 / POST 1 from {none, A, B, s}"))
+    from symcheck import consts
+    ENV_SIZES = (4096, 8192, 65536, 131072)
+    nsz = len(consts.size_cases(70000, extra=ENV_SIZES))
+    for form in range(4):
+        for pat in ((5,) if tier == "quick" else (0, 2, 4, 5)):
+            obs.append(Ob(name=f"big_f{form}_p{pat}", params=[("k", "int"), ("idsel", "int"), ("typed", "bool")], pre=[f"0 <= k < {nsz}", "0 <= idsel <= 2"] + (["idsel == 1", "typed"] if tier == "quick" else []),
+                          call=f"H.post_big(k, {pat}, {form}, idsel, typed)", backend="P", timeout=900,
+                          family="(d) size: answers carrying a string of c-1, c, c+1 characters (c: integer constants of the source and environment sizes)"))
+    clim = 110 if tier == "quick" else 1100
+    nc = len(consts.size_cases(clim))
+    obs.append(Ob(name="many_events", params=[("k", "int"), ("idsel", "int")], pre=[f"0 <= k < {nc}", ("idsel == 1" if tier == "quick" else "0 <= idsel <= 2")], call=f"H.post_many(k, idsel, {clim})", backend="P", timeout=900,
+                  family="(d) count: SSE body with c-1, c, c+1 notifications before the response"))
+    nlim = 62 if tier == "quick" else 1100
+    nn = len(consts.size_cases(nlim))
+    obs.append(Ob(name="nth_post", params=[("k", "int"), ("idsel", "int")], pre=[f"0 <= k < {nn}", ("idsel == 1" if tier == "quick" else "0 <= idsel <= 2")], call=f"H.posts_nth(k, idsel, {nlim})", backend="P", timeout=900,
+                  family="(d) count: the (n+1)-th POST on one transport"))
     from symcheck.runner import mirror
     obs += mirror(obs, r"^(post_body(0|1|7|9|11|12)|post_sse(0|3|7)|post_exc1|seq0|session_body0)$", "F", limit=(4 if tier == "quick" else None))
     return obs
